@@ -275,4 +275,21 @@ theorem Coords.scale_one (c : Coords) : c.scale (List.replicate c.ndim 1) = c :=
     simp only [Coords.scale, Coords.ndim, Coords.unstructured.injEq]
     exact zipWith_replicate_self _ 1 (fun x => by simp) a
 
+theorem Coords.absorbs_iff (rnd : Rat → Rat) (c : Coords) (b : List Rat) :
+    c.absorbs rnd b = true ↔
+      ∀ i (h1 : i < c.shiftVals.length) (h2 : i < b.length), ∀ x ∈ c.shiftVals[i], rnd (x + b[i]) = x := by
+  simp only [Coords.absorbs, List.all_eq_true, decide_eq_true_eq]
+  constructor
+  · intro h i h1 h2 x hx
+    have hm : (c.shiftVals[i], b[i]) ∈ List.zip c.shiftVals b := by
+      rw [List.mem_iff_getElem]
+      exact ⟨i, by simp [h1, h2], by simp⟩
+    exact h _ hm x hx
+  · intro h vb hvb x hx
+    obtain ⟨i, hi, e⟩ := List.mem_iff_getElem.mp hvb
+    simp only [List.length_zip, Nat.lt_min] at hi
+    simp only [List.getElem_zip] at e
+    subst e
+    exact h i hi.1 hi.2 x hx
+
 end HcipyVerif.Grid
